@@ -208,6 +208,7 @@ class Scope:
         self.attr_alias: dict = {}  # (base atom, attr) -> Poly
         self.store: dict = {}  # canonical text of attribute / subscript locations -> Poly (per-path evaluation)
         self.opaque_names: set = set()  # local names that are not to be inlined (kept as atoms)
+        self.inline_self_attrs: bool = True  # False: `self.x` reads stay atoms (locals are still resolved): "as stored" identity
 
 
 class NF:
@@ -496,7 +497,7 @@ class NF:
         return Poly.atom(r or name)
 
     def _e_Attribute(self, e, sc, at, depth):
-        if isinstance(e.value, ast.Name) and e.value.id == "self" and sc.cfg is not None and at is not None:
+        if isinstance(e.value, ast.Name) and e.value.id == "self" and sc.cfg is not None and at is not None and sc.inline_self_attrs:
             pseudo = f"self.{e.attr}"
             defs = sc.cfg.defs_of(at, pseudo)
             if len(defs) == 1 and defs[0].kind in ("assign", "aug", "unpack"):
